@@ -20,6 +20,12 @@ add('C16',
     'Lean 4 proof (mutual well-founded induction over type terms) + differential correspondence + semantic oracle on real references',
     'DESIGN.md section 5 C16')
 
+add('C18',
+    'Lean 4 theorems over the model of OrderByClause/LimitClause/OkInjection and of the list semantics of ORDER BY..LIMIT: under a total order any sorted permutation of the rows is the same list (the ordered result is determined), every K including 0 is honoured, kept rows precede dropped rows, the consumer sees exactly the truncated rows, and a predicate with @OrderBy keys or @Limit (every K) is never injected; the pinned-commit counterexample for K=0 is proved as well. Tied to the code by differential execution of the real Annotations methods against the Lean driver and of SQLite row order against evalOrdered; the property is evaluated on generated programs (4 predicate shapes, annotation and denotation syntax, all DESC placements, K in 0..rows+1, 4 consumers incl. self-join) against an independent sort/take.',
+    'Trusted: Lean kernel + standard axioms; SQLite ORDER BY/LIMIT validated by execution; integer rows only. One defect repaired (fix: honour @Limit(P, 0)).',
+    'Lean 4 proof (sorted-permutation uniqueness, decision logic) + differential correspondence + reference sort/take oracle on SQLite',
+    'DESIGN.md section 5 C18')
+
 ALL = ['C%02d' % i for i in range(1, 21)]
 
 def main():
